@@ -12,6 +12,8 @@
 (*          fn[r]   function (a, b, c, d) { return x } compiled + interpreted     *)
 (*          where / keys   t where x : outcome and the keys returned              *)
 (*          extend / zs    t extend z = x sort k : outcome and z per row          *)
+(*          others   the same where over extended copies of the columns, over     *)
+(*                   renamed columns, on top of another where, and with a sort    *)
 (* Required: fn and val give exactly Values!Eval (the language semantics); raw,   *)
 (* where and extend give a result the query engine may give: Values!EvalSet, i.e. *)
 (* Eval except that an order comparison may be done on the stored encodings,      *)
@@ -53,6 +55,12 @@ CloseRes(r, s) ==
     \/ SameRes(r, s)
     \/ r.k = "v" /\ s.k = "v" /\ r.c = "" /\ s.c = "" /\ r.v.t = "num" /\ s.v.t = "num" /\ NumClose(r.v, s.v)
 
+\* row r is returned iff the expression can be true on it / is left out iff it can be not true
+WhereRowOK(keys, r, S) ==
+    IF r \in {keys[i] : i \in 1..Len(keys)}
+    THEN \E s \in S : s.k = "u" \/ IsTrue(s)
+    ELSE \E s \in S : s.k = "u" \/ ~IsTrue(s)
+
 RowOK(e, r) ==
     LET env == EnvOf(e, r)
         ev  == Eval(e.x, env)
@@ -62,22 +70,26 @@ RowOK(e, r) ==
        /\ EngineOK(e.raw[r], S, e, env)
        \* outside the modelled domain the two exact paths must still agree with each other
        /\ (ev.k = "u" /\ e.fn[r].k # "ce" /\ e.val[r].k # "ce") => CloseRes(e.fn[r], e.val[r])
-       \* t where x
-       /\ e.where.k = "v" =>
-             IF r \in {e.keys[i] : i \in 1..Len(e.keys)}
-             THEN \E s \in S : s.k = "u" \/ IsTrue(s)
-             ELSE \E s \in S : s.k = "u" \/ ~IsTrue(s)
+       \* t where x, and the same restriction over other sources (extended / renamed columns,
+       \* a second where, with a sort)
+       /\ e.where.k = "v" => WhereRowOK(e.keys, r, S)
+       /\ \A q \in 1..Len(e.others) : e.others[q].r.k = "v" => WhereRowOK(e.others[q].keys, r, S)
        \* t extend z = x
        /\ e.extend.k = "v" => (Len(e.zs) = Len(rows) /\ EngineOK(e.zs[r], S, e, env))
+
+CanFailSomewhere(e) ==
+    \E r \in 1..Len(rows) : LET env == EnvOf(e, r) IN
+          \/ LitDiag(e.x, env, LitOf(e))
+          \/ \E s \in EvalSet(e.x, env) : s.k = "u" \/ s.k = "x" \/ s.v.t # "bool"
 
 QExprOK(e) ==
     /\ Len(e.val) = Len(rows)
     /\ \A r \in 1..Len(rows) : RowOK(e, r)
     \* a query fails only if the expression can fail on some row (or is rejected statically)
-    /\ e.where.k = "x" =>
-          \E r \in 1..Len(rows) : LET env == EnvOf(e, r) IN
-                \/ LitDiag(e.x, env, LitOf(e))
-                \/ \E s \in EvalSet(e.x, env) : s.k = "u" \/ s.k = "x" \/ s.v.t # "bool"
+    /\ e.where.k = "x" => CanFailSomewhere(e)
+    /\ \A q \in 1..Len(e.others) :
+          /\ e.others[q].r.k = "x" => CanFailSomewhere(e)
+          /\ Len(e.others[q].keys) = Cardinality({e.others[q].keys[i] : i \in 1..Len(e.others[q].keys)})
     /\ e.extend.k = "x" =>
           \E r \in 1..Len(rows) : LET env == EnvOf(e, r) IN
                 \/ LitDiag(e.x, env, LitOf(e))
